@@ -145,6 +145,32 @@ theorem accepted_update_signed_by_controller_key (c : Cfg) (s s' : Store) (tx : 
   subst this
   exact ⟨d, cur, ctrl, e, hpd, hsucc, hctrl, he, hk'⟩
 
+/-- **Exactly these checks.** The callback accepts iff integrity, parsing and validation pass, and — creation — the
+    DID is the embedded key's thumbprint, or — update — the version named by the prevs resolves, its controllers
+    resolve, the `kid` resolves as of the prevs and the thumbprint search over the controllers' capabilityInvocation
+    succeeds; and the store accepts the event. (So a delivery the model refuses fails one of the stated checks.) -/
+theorem callback_accepts_iff (c : Cfg) (s s' : Store) (tx : Tx) (pd : Option NDoc) :
+    callback c s tx pd = .ok s' ↔
+    (checkTransactionIntegrity tx = .ok () ∧ ∃ d, pd = some d ∧ validate c.thumb c.vmNilJwkErr c.validators d = .ok () ∧
+      ((∃ k, tx.embedded = some k ∧ d.idID = c.didThumb k) ∨
+       (tx.embedded = none ∧ ∃ cur ctrls k, currentVersion s d.id tx.prevs = .ok cur ∧
+          ambControllers c s cur tx = .ok ctrls ∧ resolvePublicKey c.maxDepth s tx.kid tx.prevs = .ok k ∧
+          findKey c.thumb c.findKeyNilJwkErr (c.thumb k) (capInvOf ctrls) = .ok true)) ∧
+      add c.store s (eventOf tx d) = .ok s') := by
+  constructor
+  · intro h
+    obtain ⟨hint, d, hpd, hval, hcase⟩ := callback_ok_inv c s s' tx pd h
+    refine ⟨hint, d, hpd, hval, ?_⟩
+    rcases hcase with ⟨k, hk, hc⟩ | ⟨hu, hup⟩
+    · obtain ⟨hid, hadd⟩ := handleCreate_ok c s s' tx k d hc
+      exact ⟨Or.inl ⟨k, hk, hid⟩, hadd⟩
+    · obtain ⟨cur, ctrls, k, hcur, hctrls, hk, hf, hadd⟩ := handleUpdate_ok_inv c s s' tx d hup
+      exact ⟨Or.inr ⟨hu, cur, ctrls, k, hcur, hctrls, hk, hf⟩, hadd⟩
+  · rintro ⟨hint, d, rfl, hval, hcase, hadd⟩
+    rcases hcase with ⟨k, hk, hid⟩ | ⟨hu, cur, ctrls, k, hcur, hctrls, hk, hf⟩
+    · exact callback_of_create c s s' tx d k hint hval hk hid hadd
+    · exact callback_of_update c s s' tx d cur ctrls k hint hval hu hcur hctrls hk hf hadd
+
 /-! ### a rejected document is inert -/
 
 /-- **Rejected ⇒ inert.** Whatever the reason (integrity, parsing, validation, thumbprint, unresolvable version /
@@ -240,6 +266,22 @@ theorem deactivated_controller_rejected (c : Cfg) (s : Store) (tx : Tx) (d : NDo
 theorem controllers_never_deactivated (c : Cfg) (s : Store) (cur : Doc) (tx : Tx) (ctrls : List Doc)
     (h : ambControllers c s cur tx = .ok ctrls) : ∀ x ∈ ctrls, isDeactivated x = false :=
   fun x hx => (ambControllers_sound c s cur tx ctrls h x hx).1
+
+/-- every foreign controller document the ambassador uses is a stored version of a DID the succeeded version lists,
+    selected by the transaction's prevs / signing time, and that version is NOT flagged deactivated in the store
+    (nor deactivated as a document). By C10 `deactivated_monotone` it therefore precedes any deactivation. -/
+theorem controller_versions_are_active (c : Cfg) (s : Store) (cur : Doc) (tx : Tx) (ctrls : List Doc)
+    (h : ambControllers c s cur tx = .ok ctrls) :
+    ∀ x ∈ ctrls, isDeactivated x = false ∧
+      (x = cur ∨ ∃ r ∈ controllersOf cur, ∃ rm, MetaFor tx rm ∧ ∃ m, resolve s r (some rm) = .ok (x, m) ∧
+        m.deactivated = false ∧ (x, m) ∈ (s.get r).chain) := by
+  intro x hx
+  obtain ⟨hd, hc⟩ := ambControllers_sound c s cur tx ctrls h x hx
+  refine ⟨hd, ?_⟩
+  rcases hc with ⟨rfl, _, _⟩ | ⟨r, hr, _, rm, hrm, hs, _, _⟩
+  · exact Or.inl rfl
+  · obtain ⟨m, h1, h2, h3⟩ := storeDoc_ok s (some rm) (allowOf_metaFor tx rm hrm) r x hs
+    exact Or.inr ⟨r, hr, rm, hrm, m, h1, h2, h3⟩
 
 /-- **Removed keys do not authorise** (relative to the version named by the transaction's prevs): if no
     capabilityInvocation entry of any controller of the succeeded version carries a key with the thumbprint of the
